@@ -36,7 +36,7 @@ REQUIRED_BUCKETS = ["outcome:ret", "outcome:exc", "outcome:base", "outcome:block
                     "helper:on-cancel-exc", "helper:done-exception", "stop-during-run",
                     "stop-during-restart-delay", "stop-before-start", "stop-after-completion", "double-start",
                     "cancel-swallowed", "cancel-converted-to-exception", "extra-task", "service-multi-task",
-                    "run-group", "restart-after-done"]
+                    "run-group", "run-group:actors-share-a-name", "restart-after-done"]
 REQUIRED_COUNTERS = ["run_enters_observed", "external_calls_observed", "cases_run"]
 ASSUMPTIONS = ["virtual time; probe actor with scripted _run"]
 
@@ -106,6 +106,7 @@ def gen(rng: Any, tier: str, i: int) -> Any:
                 r["at"] = min(r["at"], r["points"] - 1)
             actors.append({"runs": runs, "limit": rng.choice([n - 1, n, None]) if runs[-1]["outcome"] != "exc" else n - 1})
         return {"kind": "group", "actors": actors, "delay": rng.choice([0.0, 2.0]), "prestart": rng.random() < 0.3,
+                "same_names": rng.random() < 0.4,
                 "horizon": 200.0}
     n = rng.randint(1, 5)
     runs = []
@@ -135,12 +136,14 @@ def gen(rng: Any, tier: str, i: int) -> Any:
 # ------------------------------------------------------------------ probe + driver
 
 
-def _make_actor(script: list[dict[str, Any]], log: list[Any], name: str) -> Any:
+def _make_actor(script: list[dict[str, Any]], log: list[Any], name: str, display_name: str | None = None) -> Any:
+    """`name` identifies the probe in the harness log; `display_name` is the (free-form, possibly repeated) label
+    the actor itself is given."""
     from frequenz.sdk.actor import Actor
 
     class Probe(Actor):
         def __init__(self) -> None:
-            super().__init__(name=name)
+            super().__init__(name=display_name or name)
             self.n = 0
             self.depth = 0
 
@@ -518,7 +521,8 @@ async def _drive_group(case: dict[str, Any], log: dict[str, Any]) -> None:
         actors = []
         for i, spec in enumerate(case["actors"]):
             Actor._restart_limit = spec["limit"]  # noqa: SLF001  (class attribute, read at run time)
-            actors.append(_make_actor(spec["runs"], log["events"], f"a{i}"))
+            # (several different actors of one class may carry the same name: they are still different actors)
+            actors.append(_make_actor(spec["runs"], log["events"], f"a{i}", "worker" if case.get("same_names") else None))
         # the limit is a class attribute: use the max so that every scripted sequence can play out
         lims = [s["limit"] for s in case["actors"]]
         Actor._restart_limit = None if any(x is None for x in lims) else max(lims)  # noqa: SLF001
@@ -546,6 +550,8 @@ async def _drive_group(case: dict[str, Any], log: dict[str, Any]) -> None:
 
 def _judge_group(case: dict[str, Any], log: dict[str, Any], rec: Any) -> None:
     rec.bucket("run-group")
+    if case.get("same_names") and len(case["actors"]) > 1:
+        rec.bucket("run-group:actors-share-a-name")
     ev = log["events"]
     rec.count("run_enters_observed", sum(1 for e in ev if e["ev"] == "enter"))
     w0 = {"actors": case["actors"], "events": ev[:40], "returned_at": log.get("returned_at"), "limit_used": log.get("limit_used")}
